@@ -743,6 +743,7 @@ func (e *unitsEngine) checkIndex(f *ssa.Function, base, idx ssa.Value, pos token
 // ruleUnits emits the engine's reports restricted to functions accepted by `scope` (nil = all).
 func ruleUnits(scopeDesc string, scope func(f *ssa.Function) bool) func(*Ctx) {
 	return func(c *Ctx) {
+		ruleRuneError(c)
 		e := runUnits(c.P)
 		var keys []string
 		for k := range e.reports {
@@ -1188,8 +1189,30 @@ func ruleLoadErrRange(c *Ctx) {
 					continue
 				}
 				fromLoadErr := sliceReadsLoadErr(st.Val, "Range", isLoadErrField)
+				// a constructor of diagnostics that is handed bare coordinates (`syntaxDiagnostic(line, column, msg)`):
+				// the construction happens, for this rule, at the call sites that pass a load error's position
+				var viaSites []*ssa.BasicBlock
 				if !fromLoadErr {
-					continue
+					_, pp := backSlicePath(st.Val, nil)
+					for p := range pp {
+						if p.Parent() != f {
+							continue
+						}
+						idx := -1
+						for i, q := range f.Params {
+							if q == p {
+								idx = i
+							}
+						}
+						for _, site := range (cgView{c}).callersOf(f) {
+							if idx >= 0 && idx < len(site.Common().Args) && sliceReadsLoadErr(site.Common().Args[idx], "Range", isLoadErrField) {
+								viaSites = append(viaSites, site.Block())
+							}
+						}
+					}
+					if len(viaSites) == 0 {
+						continue
+					}
 				}
 				seen[b] = true
 				n++
@@ -1230,7 +1253,16 @@ func ruleLoadErrRange(c *Ctx) {
 					}
 					return true
 				}
-				excluded := excludedAt(b, 0)
+				excluded := true
+				if len(viaSites) > 0 {
+					for _, sb := range viaSites {
+						if !excludedAt(sb, 0) {
+							excluded = false
+						}
+					}
+				} else {
+					excluded = excludedAt(b, 0)
+				}
 				c.check(excluded, "C08-LOADERR", funcName(f), "diagnostic ranges taken from load errors exclude parse errors", st.Pos(),
 					"the diagnostic is built only for load errors whose range is the include directive's (kind is not the parse-error kind)",
 					"a diagnostic for the open document takes its range from a load error whose kind may be 'parse error': that range is a position inside the included file, so the diagnostic lands on unrelated text or outside the document")
